@@ -32,6 +32,15 @@ Theorem C17_only_the_owners_tx_changes_parameters_under_key_restriction r s o s'
     ((exists f key v raw wf, t_msg t = MChangeParam f key v raw wf /\ beqb (owner_of (acl s) key) f = true /\ msg_signer (t_msg t) = f) \/
      (exists f h raw, t_msg t = MUpgrade f h raw /\ beqb (owner_of (acl s) [103;111;118;47;117;112;103;114;97;100;101]%N) f = true)).
 Proof. exact (params_change_only_by_owner_tx_cp r s o s'). Qed.
+(* an ACL that lists a parameter more than once: the FIRST entry names its owner, entries for the same key further down
+   change nothing whatever address they carry (ACL.GetOwner's loop; ModifyParam installs any list unchecked) *)
+Theorem C17_first_acl_entry_owns l1 k a l2 :
+  (forall p, In p l1 -> fst p <> k) -> owner_of (l1 ++ (k, a) :: l2) k = a.
+Proof. exact (owner_of_first_entry l1 k a l2). Qed.
+Theorem C17_later_acl_entries_for_a_key_are_ignored l1 k a l2 l2' :
+  (forall p, In p l1 -> fst p <> k) -> owner_of (l1 ++ (k, a) :: l2) k = owner_of (l1 ++ (k, a) :: l2') k.
+Proof. exact (owner_of_ignores_later_entries l1 k a l2 l2'). Qed.
+
 Theorem C17_begin_block_changes_no_parameter s h t prop votes evs s' : begin_block s h t prop votes evs = Some s' -> gov_view s' = gov_view s.
 Proof. exact (gv_begin_block s h t prop votes evs s'). Qed.
 Theorem C17_end_block_changes_no_parameter s s' ups : end_block s = Some (s', ups) -> gov_view s' = gov_view s.
@@ -61,3 +70,5 @@ Print Assumptions C17_dao_needs_owner.
 Print Assumptions C17_only_the_owners_tx_changes_parameters.
 Print Assumptions C17_only_the_owners_tx_changes_parameters_under_key_restriction.
 Print Assumptions C17_dao_balance_falls_only_by_the_owners_message.
+Print Assumptions C17_first_acl_entry_owns.
+Print Assumptions C17_later_acl_entries_for_a_key_are_ignored.
